@@ -241,7 +241,9 @@ class FunctionVC:
         if hasattr(_builtins, name):
             return VConc(getattr(_builtins, name))
         if self.c.kind == 'K3':
-            raise Unsupported('unknown name %r in emitted code' % name)
+            # a bare name the generated module does not define: Python raises NameError
+            from .interp import Raised as R
+            raise R(VExc(NameError, [VStr(name)]))
         mod = real_module(self.c.file)
         if hasattr(mod, name):
             return self.wrap_global(getattr(mod, name), name)
